@@ -34,8 +34,10 @@ META = {
                     "with that mean (library)",
                     "the statistical statement follows from interval membership: the intervals are consecutive partial sums of the "
                     "propensities, so an event is selected with probability a/a0 (argument on paper, not machine-checked)",
-                    "that at least one event is applied (r < a0 = sum of all channels) needs a0 to be the exact sum; with doubles the "
-                    "last interval can be missed by rounding: not decided here"],
+                    "that an event is always applied when a0 > 0 is proved over the reals for the grid class (a0 and the per-cell sums "
+                    "are the sums of the channels: ghost partial sums through ComputePropensities and DrawAndApplyEvent); with "
+                    "doubles the last interval can be missed by rounding (A1), and the graph class has this part only in the "
+                    "concrete step battery"],
 }
 
 GILL = ["Gillespie3D", "GillespieGraph"]
@@ -476,6 +478,179 @@ def compute_nevt_case(cls):
     return Case("%s/Compute_nevt" % cls, run, functions=["%s::Compute_nevt" % cls], conc=False, max_paths=3000)
 
 
+def _sum_ghosts(I, c, o, x0):
+    """ghost partial sums of the propensities of one state (grid layout): AR(i, r) over reactions, AD(i, k) over the
+    diffusion channels k = s*6+n (0 towards a missing neighbour), TOT(i) over cells; unfoldings are given as ground instances"""
+    f = o.fields
+    S, R, M = f["n_species"], f["n_reactions"], f["n_meshes"]
+    XA = z3.ArraySort(z3.IntSort(), z3.RealSort())
+    RP = z3.Function("reaction_propensity", XA, z3.IntSort(), z3.IntSort(), z3.RealSort())
+    DP = z3.Function("diffusion_propensity", XA, z3.IntSort(), z3.IntSort(), z3.IntSort(), z3.RealSort())
+    AR = z3.Function("reaction_sum_upto", z3.IntSort(), z3.IntSort(), z3.RealSort())
+    AD = z3.Function("diffusion_sum_upto", z3.IntSort(), z3.IntSort(), z3.RealSort())
+    TOT = z3.Function("total_upto", z3.IntSort(), z3.RealSort())
+    i_ = z3.Int("i!g")
+    c.assume(z3.ForAll([i_], z3.And(AR(i_, 0) == 0, AD(i_, 0) == 0)))
+    c.assume(TOT(0) == 0)
+
+    def dpv(i, s, n):
+        return z3.If(z3.Select(f["mesh_neighbors"].arr, i * 6 + n) != -1, DP(x0, i, s, n), 0)
+
+    def unfold_r(i, r):
+        return z3.Implies(r >= 0, AR(i, r + 1) == AR(i, r) + RP(x0, i, r))
+
+    def unfold_d(i, s, n):
+        return z3.Implies(z3.And(s >= 0, n >= 0, n < 6), AD(i, s * 6 + n + 1) == AD(i, s * 6 + n) + dpv(i, s, n))
+
+    def unfold_t(i):
+        return z3.Implies(i >= 0, TOT(i + 1) == TOT(i) + AR(i, R) + AD(i, S * 6))
+    return RP, DP, AR, AD, TOT, dpv, unfold_r, unfold_d, unfold_t
+
+
+def totals_case(cls="Gillespie3D"):
+    """ComputePropensities leaves a0 = sum over all channels, mesh_a0r[i] / mesh_a0d[i] = the sums of cell i"""
+    P = "C07/%s::ComputePropensities" % cls
+
+    def run(api):
+        prog = C11.program()
+        c = api.ctx
+        inv0 = dict(K.LOOP_INV)
+        I = K.make_interp(prog, c, "C07", loop_inv=inv0)
+        o = _obj(I, cls)
+        f = o.fields
+        S, R, M = f["n_species"], f["n_reactions"], f["n_meshes"]
+        x0 = f["mesh_x"].arr
+        RP, DP, AR, AD, TOT, dpv, unfold_r, unfold_d, unfold_t = _sum_ghosts(I, c, o, x0)
+
+        def st_r(I_, this, args, fr, node):
+            v = RP(x0, args[0], args[1])
+            c.assume(v >= 0)
+            return v
+
+        def st_d(I_, this, args, fr, node):
+            v = DP(x0, args[0], args[1], args[2])
+            c.assume(v >= 0)
+            return v
+        I.method_stubs = {"ReactionProp": st_r, "DiffusionProp": st_d}
+        I.store_checks = {}
+        i0 = K._int(I, "i0", 0)
+        c.assume(i0 < M)
+
+        def L(fr, nm):
+            return I.local_by_name(fr, nm)
+
+        def cell_done(fr):
+            ff = fr.this.fields
+            i = L(fr, "i")
+            return z3.Implies(i > i0, z3.And(z3.Select(ff["mesh_a0r"].arr, i0) == AR(i0, R), z3.Select(ff["mesh_a0d"].arr, i0) == AD(i0, S * 6)))
+
+        def inv1(I_, fr, stage):
+            ff = fr.this.fields
+            i = L(fr, "i")
+            if stage == "assume":
+                c.assume(unfold_t(i))
+            return [ff["a0"] == TOT(i), cell_done(fr)]
+
+        def inv2(I_, fr, stage):
+            ff = fr.this.fields
+            i, r = L(fr, "i"), L(fr, "r")
+            if stage == "assume":
+                c.assume(z3.And(unfold_r(i, r), unfold_t(i)))
+            return [ff["a0"] == TOT(i) + AR(i, r), z3.Select(ff["mesh_a0r"].arr, i) == AR(i, r), z3.Select(ff["mesh_a0d"].arr, i) == 0,
+                    cell_done(fr)]
+
+        def inv34(level):
+            def inv(I_, fr, stage):
+                ff = fr.this.fields
+                i, s_ = L(fr, "i"), L(fr, "s")
+                n = L(fr, "n") if level == 4 else z3.IntVal(0)
+                if stage == "assume":
+                    c.assume(z3.And(unfold_d(i, s_, n), unfold_t(i)))
+                k = s_ * 6 + n
+                return [ff["a0"] == TOT(i) + AR(i, R) + AD(i, k), z3.Select(ff["mesh_a0r"].arr, i) == AR(i, R),
+                        z3.Select(ff["mesh_a0d"].arr, i) == AD(i, k), cell_done(fr)]
+            return inv
+        inv0.update({("ComputePropensities", 1): inv1, ("ComputePropensities", 2): inv2, ("ComputePropensities", 3): inv34(3),
+                     ("ComputePropensities", 4): inv34(4)})
+        fn, _ = prog.method(cls, "ComputePropensities")
+        I.call(fn, o, [], fn, Frame("top"))
+        ff = o.fields
+        c.oblige(P + "/a0-is-the-sum-over-all-channels", ff["a0"] == TOT(M))
+        c.oblige(P + "/cell-sums", z3.And(z3.Select(ff["mesh_a0r"].arr, i0) == AR(i0, R), z3.Select(ff["mesh_a0d"].arr, i0) == AD(i0, S * 6)))
+
+    return Case("%s/ComputePropensities-totals" % cls, run, functions=["%s::ComputePropensities" % cls], conc=False, max_paths=3000)
+
+
+def draw_complete_case(cls="Gillespie3D"):
+    """with a0 > 0 the sum of the channels, DrawAndApplyEvent applies exactly one event (reals: no path leaves the
+    search without an event)"""
+    P = "C07/%s::DrawAndApplyEvent" % cls
+
+    def run(api):
+        prog = C11.program()
+        c = api.ctx
+        inv0 = dict(K.LOOP_INV)
+        I = K.make_interp(prog, c, "C07", loop_inv=inv0)
+        o = _obj(I, cls)
+        f = o.fields
+        S, R, M = f["n_species"], f["n_reactions"], f["n_meshes"]
+        x0 = f["mesh_x"].arr
+        RP, DP, AR, AD, TOT, dpv, unfold_r, unfold_d, unfold_t = _sum_ghosts(I, c, o, x0)
+        # post-state of ComputePropensities (its contracts: totals_case, compute_propensities_case)
+        c.assume(z3.And(f["a0"] == TOT(M), f["a0"] > 0))
+        I.read_facts = dict(I.read_facts)
+        I.elem_facts = dict(I.elem_facts)
+        I.read_facts["mesh_a0r"] = lambda I_, o_, fr, e, idx: z3.And(e == AR(idx, R), e >= 0)
+        I.read_facts["mesh_a0d"] = lambda I_, o_, fr, e, idx: z3.And(e == AD(idx, S * 6), e >= 0)
+
+        def ar_read(I_, o_, fr, e, idx):
+            i, j = I_.local_by_name(fr, "i"), I_.local_by_name(fr, "j")
+            return z3.Implies(idx == i * R + j, z3.And(e == RP(x0, i, j), e >= 0))
+
+        def ad_read(I_, o_, fr, e, idx):
+            i, j, n = I_.local_by_name(fr, "i"), I_.local_by_name(fr, "j"), I_.local_by_name(fr, "n")
+            if n is None:
+                return None
+            return z3.Implies(idx == i * S * 6 + j * 6 + n, z3.And(e == dpv(i, j, n), e >= 0))
+        I.read_facts["mesh_ar"] = ar_read
+        I.read_facts["mesh_ad"] = ad_read
+        calls = []
+        I.method_stubs = {"ApplyReaction": lambda I_, this, a, fr, node: calls.append("r"),
+                          "ApplyDiffusion": lambda I_, this, a, fr, node: calls.append("d")}
+
+        def L(fr, nm):
+            return I.local_by_name(fr, nm)
+
+        def outer(I_, fr, stage):
+            i = L(fr, "i")
+            if stage == "assume":
+                c.assume(unfold_t(i))
+            return [L(fr, "r") >= L(fr, "a0_cumul"), L(fr, "a0_cumul") == TOT(i)]
+
+        def inner_r(I_, fr, stage):
+            i, j = L(fr, "i"), L(fr, "j")
+            if stage == "assume":
+                c.assume(unfold_r(i, j))
+            return [L(fr, "r2") >= L(fr, "a_cumul"), L(fr, "a_cumul") == AR(i, j)]
+
+        def inner_d(level):
+            def inv(I_, fr, stage):
+                i, j = L(fr, "i"), L(fr, "j")
+                n = L(fr, "n") if level == 2 else z3.IntVal(0)
+                if stage == "assume":
+                    c.assume(unfold_d(i, j, n))
+                return [L(fr, "r2") >= L(fr, "a_cumul"), L(fr, "a_cumul") == AD(i, j * 6 + n), z3.Not(L(fr, "diff_is_done"))]
+            return inv
+        inv0.update({("DrawAndApplyEvent", 1): outer, ("DrawAndApplyEvent", 2): inner_r, ("DrawAndApplyEvent", 3): inner_d(1),
+                     ("DrawAndApplyEvent", 4): inner_d(2)})
+        fn, _ = prog.method(cls, "DrawAndApplyEvent")
+        I.call(fn, o, [], fn, Frame("top"))
+        api.check(P + "/exactly-one-event-when-a0-is-positive (reals)", len(calls) == 1, "events applied on this path: %d" % len(calls))
+
+    return Case("%s/DrawAndApplyEvent-applies-an-event" % cls, run, functions=["%s::DrawAndApplyEvent" % cls], conc=False,
+                max_paths=3000)
+
+
 def battery_step(tier, seed):
     """concrete replays: thousands of steps of the exact stochastic engine built from the working tree, each step
     checked to be one possible event (ASan+UBSan)"""
@@ -522,5 +697,6 @@ if z3 is not None:
     for _c in GILL:
         CASES += [apply_reaction_case(_c), apply_diffusion_case(_c), draw_case(_c), reaction_prop_case(_c),
                   diffusion_prop_case(_c), compute_propensities_case(_c), iterate_case(_c), iterate_state_case(_c)]
+    CASES += [totals_case("Gillespie3D"), draw_complete_case("Gillespie3D")]
     for _c in TAU:
         CASES += [reaction_prop_case(_c), diffusion_prop_case(_c), poisson_wrapper_case(_c), compute_nevt_case(_c)]
